@@ -173,6 +173,16 @@ func (s *ItemSpec) Make() Made {
 		}{&PS_0{S: string(s.Str)}, 7}
 	case "anonSE":
 		m.Item = struct{ VSE_0 }{VSE_0{S: string(s.Str), E: "<wrong: Error>"}}
+	case "lookS":
+		m.Item = LookS{V: string(s.Str)}
+	case "lookSB":
+		m.Item = LookSB{V: string(s.Str)}
+	case "lookW":
+		m.Item = LookW{V: string(s.Str)}
+	case "lookH":
+		m.Item = &LookH{V: string(s.Str)}
+	case "lookNone":
+		m.Item = LookNone{V: string(s.Str)}
 	case "tplhtml":
 		m.Item = template.HTML(s.Str)
 	case "tpljs":
@@ -247,6 +257,18 @@ func (s *ItemSpec) Make() Made {
 	case "cell":
 		in := s.Inner.Make()
 		m.Item = tabular.NewCell(in.Item)
+	case "cellcycle1":
+		// a cell whose item is a pointer to itself (the spreadsheet's circular reference): it shows what it read last
+		a := tabular.NewCell(string(s.Str))
+		pa := &a
+		a = tabular.NewCell(pa)
+		m.Item = pa
+	case "cellcycle2":
+		// two cells holding pointers to each other
+		a := tabular.NewCell(string(s.Str))
+		b := tabular.NewCell(&a)
+		a = tabular.NewCell(&b)
+		m.Item = &a
 	case "cellptr":
 		in := s.Inner.Make()
 		c := tabular.NewCell(in.Item)
@@ -339,7 +361,7 @@ func (s *ItemSpec) TextWith(f *Fields) string {
 		return s.Inner.Text()
 	case "cellptr":
 		return s.Inner.TextWith(f) // the cell pointed at follows its item (see Make)
-	case "anonG", "anonPS", "anonSE", "tplhtml", "tpljs", "tplurl", "tplattr", "jsonnumber":
+	case "anonG", "anonPS", "anonSE", "tplhtml", "tpljs", "tplurl", "tplattr", "jsonnumber", "lookS", "lookSB", "lookW", "lookH", "cellcycle1", "cellcycle2":
 		return string(s.Str) // promoted GoString / String (String before Error); named string types read as their value
 	case "aggslice", "aggstringer", "aggarrmap":
 		// by-value aggregates which reach mutable state through an interior reference
@@ -466,13 +488,16 @@ func (r *R) WrapText(s string) ItemSpec {
 		if r.Bool() {
 			return ItemSpec{K: "err", Str: Q(s)}
 		}
+		if r.Chance(1, 6) {
+			return ItemSpec{K: Pick(r, []string{"cellcycle1", "cellcycle2"}), Str: Q(s)}
+		}
 		in := StrItem(s)
 		return ItemSpec{K: "cell", Inner: &in}
 	case 3:
 		// other carriers whose documented text form is s: named string types of other packages (html/template's
 		// "trusted" strings, read as their value like any named string), a named string of this package, unnamed
 		// struct types with a promoted GoString or String
-		return ItemSpec{K: Pick(r, []string{"tplhtml", "tplhtml", "tpljs", "tplurl", "tplattr", "mystr", "anonG", "anonPS", "anonSE"}), Str: Q(s)}
+		return ItemSpec{K: Pick(r, []string{"tplhtml", "tplhtml", "tpljs", "tplurl", "tplattr", "mystr", "anonG", "anonPS", "anonSE", "lookS", "lookSB", "lookW", "lookH"}), Str: Q(s)}
 	default:
 		return StrItem(s)
 	}
@@ -518,7 +543,7 @@ func (r *R) AnyItem(fam Fam, maxAtoms, depth int) ItemSpec {
 	case 4:
 		return ItemSpec{K: "bool", Num: int64(r.Intn(2))}
 	case 5:
-		return ItemSpec{K: Pick(r, []string{"mystr", "bytes", "err", "fmtstr", "aggslice", "aggstringer", "aggarrmap", "anonG", "anonPS", "anonSE", "tplhtml", "tpljs", "tplurl", "tplattr", "tplhtml", "jsonnumber", "ifacestruct", "ifacearr"}), Str: Q(r.Str(fam, maxAtoms))}
+		return ItemSpec{K: Pick(r, []string{"mystr", "bytes", "err", "fmtstr", "aggslice", "aggstringer", "aggarrmap", "anonG", "anonPS", "anonSE", "tplhtml", "tpljs", "tplurl", "tplattr", "tplhtml", "jsonnumber", "ifacestruct", "ifacearr", "lookS", "lookSB", "lookW", "lookH", "lookNone", "cellcycle1", "cellcycle2"}), Str: Q(r.Str(fam, maxAtoms))}
 	case 6:
 		return ItemSpec{K: Pick(r, []string{"slice", "map", "struct", "structptr", "complex", "complex64", "fmtfloat"}), Str: Q(r.Str(FAscii, 2)), Num: int64(r.Intn(9)), Flt: 1.5}
 	case 7:
@@ -625,3 +650,37 @@ func (r *R) edgeOrSmall() int64 {
 	}
 	return int64(r.Range(-3, 120))
 }
+
+// Look-alikes: types with a method NAMED like one of the optional methods a cell looks for (String, GoString,
+// Error, Height, TerminalCellWidth) but of another signature.  Such a method is none of the library's business:
+// the item takes the next text method it really offers, or the default formatting, and declares no size.
+type LookS struct{ V string }
+
+func (l LookS) String(unit string) string { return "<wrong: String(unit)> " + unit }
+func (l LookS) Error() string             { return l.V }
+
+type LookSB struct{ V string }
+
+func (l LookSB) String() []byte   { return []byte("<wrong: String() []byte>") }
+func (l LookSB) GoString() string { return l.V }
+
+type LookW struct{ V string }
+
+func (l LookW) TerminalCellWidth(font string) int { return 99 }
+func (l LookW) Height() float64                   { return 7.5 }
+func (l LookW) String() string                    { return l.V }
+
+type LookH struct{ V string }
+
+func (l *LookH) Height(lineSpacing int) int { return 99 }
+func (l *LookH) TerminalCellWidth() string  { return "wide" }
+func (l *LookH) GoString() string           { return l.V }
+func (l *LookH) Error() error               { return nil }
+
+// LookNone has look-alikes only: it reads as the default formatting of its value.
+type LookNone struct{ V string }
+
+func (l LookNone) String(verbose bool) string { return "<wrong>" }
+func (l LookNone) GoString() []byte           { return nil }
+func (l LookNone) Error() error               { return nil }
+func (l LookNone) Height() float64            { return 3 }
